@@ -41,7 +41,9 @@ EXTENDS AttDiscovery
 NConn == 3
 Conns == 1..NConn
 
-VARIABLES cfg,      \* [d: declaration, t: attribute table, smax: server maximum MTU, wqsize: prepare queue octets (0 = none)]
+VARIABLES cfg,      \* constant per server: [d: declaration, t: attribute table, smax: server maximum MTU, wqsize: prepare queue
+                    \*   octets (0 = none), ix: handle -> table index, cccdh: CCCD handles in table order, serh: running number of a
+                    \*   characteristic of the declaration -> its value handle]
           value,    \* value handle -> byte sequence
           mtuc,     \* connection -> last valid client MTU
           cccd,     \* connection -> (CCCD handle -> 0..3)
@@ -65,7 +67,8 @@ EInvalidOffset == 7   EQueueFull == 9          EInvalidLength == 13
 \* ---------------------------------------------------------------------------- table access
 T == cfg.t
 Mtu(c) == Min(cfg.smax, mtuc[c])
-AttrOf(h) == T[AttrAt(T, h)]
+Has(h) == h \in DOMAIN cfg.ix
+AttrOf(h) == T[cfg.ix[h]]
 Take(s, n) == SubSeq(s, 1, Min(Len(s), Max(n, 0)))
 Drop(s, n) == SubSeq(s, n + 1, Len(s))
 \* bytes written at offset off over old (fixed length): everything else unchanged
@@ -84,14 +87,22 @@ Cur(c) == [i \in 1..Len(T) |-> [T[i] EXCEPT !.val = CurVal(c, T[i])]]
 
 EmptyQ == [owner |-> 0, q |-> <<>>]
 
-InitStateT(d, t) ==
-    [cfg   |-> [d |-> d, t |-> t, smax |-> d.opts.mtu, wqsize |-> d.opts.wq],
-     value |-> [h \in ValueHandles(t) |-> t[AttrAt(t, h)].val],
+SeqRange(q) == {q[i] : i \in 1..Len(q)}
+MakeCfg(d, t) ==
+    [d |-> d, t |-> t, smax |-> d.opts.mtu, wqsize |-> d.opts.wq,
+     ix    |-> [h \in {t[i].h : i \in 1..Len(t)} |-> CHOOSE i \in 1..Len(t) : t[i].h = h],
+     cccdh |-> LET idx == SelectSeq([i \in 1..Len(t) |-> i], LAMBDA i : t[i].kind = "cccd") IN [i \in 1..Len(idx) |-> t[idx[i]].h],
+     serh  |-> LET own == SelectSeq([i \in 1..Len(t) |-> i], LAMBDA i : t[i].kind = "value" /\ t[i].svc <= Len(d.services))
+               IN  [s \in 1..Len(own) |-> t[CHOOSE i \in SeqRange(own) : d.services[t[i].svc].chars[t[i].chr].serial = s].h]]
+\* initial state of a server with configuration cf
+StateOf(cf) ==
+    [cfg   |-> cf,
+     value |-> [h \in ValueHandles(cf.t) |-> cf.t[cf.ix[h]].val],
      mtuc  |-> [c \in Conns |-> 23],
-     cccd  |-> [c \in Conns |-> [h \in CccdHandles(t) |-> 0]],
+     cccd  |-> [c \in Conns |-> [h \in SeqRange(cf.cccdh) |-> 0]],
      wq    |-> EmptyQ]
-\* (the table is bound once through a singleton set: TLC would rebuild a LET-bound table at every use)
-InitState(d) == CHOOSE s \in {InitStateT(d, t) : t \in {Build(d)}} : TRUE
+\* (table and configuration are bound once through singleton sets: TLC would rebuild a LET-bound table at every use)
+InitState(d) == CHOOSE s \in {StateOf(cf) : cf \in {MakeCfg(d, t) : t \in {Build(d)}}} : TRUE
 InitFor(d) ==
     \E s \in {InitState(d)} : cfg = s.cfg /\ value = s.value /\ mtuc = s.mtuc /\ cccd = s.cccd /\ wq = s.wq
 
@@ -109,7 +120,7 @@ PBounded    == Pat("bounded", <<>>, {})     \* anything within the MTU (owned by
 RbtEntries(out) == [i \in 1..((Len(out) - 2) \div out[2]) |-> SubSeq(out, 3 + (i - 1) * out[2], 2 + i * out[2])]
 RbtListed(out) == Len(out) >= 4 /\ out[1] = RspReadByType /\ out[2] >= 2 /\ (Len(out) - 2) % out[2] = 0
 RbtEntryOK(c, in, e) ==
-    /\ HasAttr(T, U16(e, 1))
+    /\ Has(U16(e, 1))
     /\ LET a == AttrOf(U16(e, 1))  v == CurVal(c, AttrOf(U16(e, 1))) IN
        a.rd /\ TypeEq(a.type, Drop(in, 5)) /\ Len(e) - 2 <= Len(v) /\ Drop(e, 2) = Take(v, Len(e) - 2)
 RbtOK(c, in, out) ==
@@ -140,7 +151,7 @@ ExchangeMtu(c, in) ==
 Read(c, in) ==
     IF Len(in) # 3 THEN {Same(PAnyErr)}
     ELSE LET h == U16(in, 2) IN
-         IF ~HasAttr(T, h) THEN {Same(PErr({EInvalidHandle}))}
+         IF ~Has(h) THEN {Same(PErr({EInvalidHandle}))}
          ELSE LET a == AttrOf(h) IN
               IF ~a.rd THEN {Same(PErr({EReadNotPermitted}))}
               ELSE {Same(PBytes(<<RspRead>> \o Take(CurVal(c, a), Mtu(c) - 1)))}
@@ -148,7 +159,7 @@ Read(c, in) ==
 ReadBlob(c, in) ==
     IF Len(in) # 5 THEN {Same(PAnyErr)}
     ELSE LET h == U16(in, 2)  off == U16(in, 4) IN
-         IF ~HasAttr(T, h) THEN {Same(PErr({EInvalidHandle}))}
+         IF ~Has(h) THEN {Same(PErr({EInvalidHandle}))}
          ELSE LET a == AttrOf(h)  v == CurVal(c, a) IN
               IF ~a.rd THEN {Same(PErr({EReadNotPermitted}))}
               ELSE IF off > Len(v) THEN {Same(PErr({EInvalidOffset}))}
@@ -160,8 +171,8 @@ Concat(c, hs, i) == IF i > Len(hs) THEN <<>> ELSE CurVal(c, AttrOf(hs[i])) \o Co
 ReadMultiple(c, in) ==
     IF Len(in) < 5 \/ Len(in) % 2 = 0 THEN {Same(PAnyErr)}
     ELSE LET hs  == [i \in 1..((Len(in) - 1) \div 2) |-> U16(in, 2 * i)]
-             bad == {IF ~HasAttr(T, hs[i]) THEN EInvalidHandle ELSE EReadNotPermitted :
-                        i \in {j \in 1..Len(hs) : ~HasAttr(T, hs[j]) \/ ~AttrOf(hs[j]).rd}}
+             bad == {IF ~Has(hs[i]) THEN EInvalidHandle ELSE EReadNotPermitted :
+                        i \in {j \in 1..Len(hs) : ~Has(hs[j]) \/ ~AttrOf(hs[j]).rd}}
          IN  IF bad # {} THEN {Same(PErr(bad))}          \* which of several failing handles is reported is free
              ELSE {Same(PBytes(<<RspReadMultiple>> \o Take(Concat(c, hs, 1), Mtu(c) - 1)))}
 
@@ -170,7 +181,7 @@ ReadMultiple(c, in) ==
 Eff(err, base) == [err |-> err, value |-> base.value, cccd |-> base.cccd, cb |-> base.cb]
 
 WriteEffect(c, base, h, off, bytes) ==
-    IF ~HasAttr(T, h) THEN Eff({EInvalidHandle}, base)
+    IF ~Has(h) THEN Eff({EInvalidHandle}, base)
     ELSE LET a == AttrOf(h) IN
          CASE a.kind = "value" ->
                 LET old == base.value[h] IN
@@ -192,7 +203,7 @@ Base == [value |-> value, cccd |-> cccd, cb |-> 0]
 \* a write of fewer than the 2 octets of a CCCD may also be refused (GATT defines the descriptor as 2 octets)
 WriteEffects(c, h, bytes) ==
     {WriteEffect(c, Base, h, 0, bytes)}
-    \cup (IF HasAttr(T, h) /\ AttrOf(h).kind = "cccd" /\ Len(bytes) < 2 THEN {Eff({EInvalidLength}, Base)} ELSE {})
+    \cup (IF Has(h) /\ AttrOf(h).kind = "cccd" /\ Len(bytes) < 2 THEN {Eff({EInvalidLength}, Base)} ELSE {})
 
 Write(c, in, withResponse) ==
     IF Len(in) < 3 THEN {Same(IF withResponse THEN PAnyErr ELSE PBytes(<<>>))}
@@ -206,7 +217,7 @@ Prepare(c, in) ==
     IF cfg.wqsize = 0 THEN {Same(PErr({ENotSupported}))}
     ELSE IF Len(in) < 5 THEN {Same(PAnyErr)}
     ELSE LET h == U16(in, 2) IN
-         IF ~HasAttr(T, h) THEN {Same(PErr({EInvalidHandle}))}
+         IF ~Has(h) THEN {Same(PErr({EInvalidHandle}))}
          ELSE IF ~AttrOf(h).wr THEN {Same(PErr({EWriteNotPermitted}))}
          ELSE {Same(PErr({EQueueFull}))}                              \* capacity / ownership: C07
               \cup (IF wq.owner \in {0, c}
@@ -262,7 +273,7 @@ OutputOK(c, out) ==
     \/ out = <<>>
     \/ /\ Len(out) >= 3 /\ Len(out) <= Mtu(c)
        /\ out[1] \in {OpNotification, OpIndication}
-       /\ HasAttr(T, U16(out, 2))
+       /\ Has(U16(out, 2))
        /\ LET a == AttrOf(U16(out, 2)) IN
           /\ a.kind = "value"
           /\ IF out[1] = OpNotification THEN CharOf(a).notify ELSE CharOf(a).indicate
